@@ -1,6 +1,24 @@
-"""C20 — artifacts return what was stored in them (DESIGN §5 C20)."""
+"""C20 — artifacts return what was stored in them (DESIGN §5 C20).
+
+The rules are written against the normal form (sa.normalize): helpers that do not exist on the pinned
+tree are inlined, iterator chains with closures are explicit `next` loops.  Conditions are stated on
+dataflow and on *outcomes* (which variant of Result/Option the function returns along a path), not on
+the number or the spelling of syntactic items:
+
+  Flow          path-sensitive forward exploration that knows the variant of Option/Result/ControlFlow
+                locals (`x = None`, `Try::branch`, `from_residual`, `context`, `ok_or_else`, `match`)
+                and of short-circuit bools; an exit is `ok`, `err` or `unknown` by the variant `_0` holds
+                at the `return`.  This makes `for .. {return Ok} bail!` ≡ `find(..).with_context(..)`,
+                `x?` ≡ `match x {Err(e) => return Err(e), ..}`, and a `?` inside an inlined helper
+                (whose Err is first stored in the helper's result and re-branched by the caller) decidable.
+  propagates    T-ERRFLOW: when the call's result is Err/None every exit is `err`.
+  guard_holds   T-GUARD: no `ok`/`unknown` exit is reachable without passing the test, and the side
+                of the test that contradicts the required polarity only has `err` exits.
+"""
 import os
 from .common import *
+
+VIEW = 'norm'
 
 KINDS = {
     # kind: (builder fn, reader fn, media type fn, message type, annotation type)
@@ -10,84 +28,434 @@ KINDS = {
     'sample-set': ('add_sample_set', 'get_sample_set', 'v1_sample_set', 'v1::SampleSet', 'SampleSetAnnotations'),
 }
 BUILDER = 'artifact::builder::Builder<Base>'; ART = 'artifact::Artifact<Base>'
+MT_FN = re.compile(r'^artifact::media_types::(v1_\w+)$')
+
+# prost calls that produce / consume exactly the plain (not length-delimited) wire encoding of a message
+ENCODERS = ('encode_to_vec',      # msg.encode_to_vec()
+            'encode')             # msg.encode(&mut buf)?
+DECODERS = ('decode',)            # T::decode(bytes)
 
 
-def media_type_calls(b):
-    return [c for c in b.calls if re.match(r'^artifact::media_types::v1_\w+$', c.path)]
+# ------------------------------------------------------------------------------- outcomes
+OKV = ('Ok', 'Some', 'Continue'); ERRV = ('Err', 'None', 'Break')
+VIDX = {'None': 0, 'Some': 1, 'Ok': 0, 'Err': 1, 'Continue': 0, 'Break': 1}
+ADT_VARIANT = re.compile(r'(?:option::Option|result::Result|ops::ControlFlow)::(Some|None|Ok|Err|Continue|Break)$')
+
+# adaptors that keep the ok-ness of their receiver (Some/Ok -> Some/Ok, None/Err -> None/Err); the variant
+# names of the result are taken from the type of the destination.  (receiver family, item)
+KEEPS_OKNESS = {
+    ('Option', 'as_ref'), ('Option', 'as_mut'), ('Option', 'as_deref'), ('Option', 'as_deref_mut'),     # borrow the payload
+    ('Option', 'cloned'), ('Option', 'copied'),                                                         # copy the payload
+    ('Option', 'map'), ('Option', 'inspect'),                                                           # transform the payload
+    ('Option', 'ok_or'), ('Option', 'ok_or_else'),                                                      # None -> Err(e)
+    ('Option', 'context'), ('Option', 'with_context'),                                                  # anyhow: None -> Err(msg)
+    ('Result', 'as_ref'), ('Result', 'as_mut'), ('Result', 'cloned'), ('Result', 'copied'),
+    ('Result', 'map'), ('Result', 'inspect'),                                                           # transform the Ok payload
+    ('Result', 'map_err'), ('Result', 'inspect_err'),                                                   # transform the error
+    ('Result', 'context'), ('Result', 'with_context'),                                                  # anyhow: wrap the error
+    ('Result', 'ok'),                                                                                   # Err -> None
+}
 
 
+def ty_family(ty):
+    """(ok variant, err variant) of an Option / Result / ControlFlow type (references stripped)"""
+    t = re.sub(r"^(&('\w+ )?(mut )?)+", '', (ty or '').strip())
+    if t.startswith('std::option::Option'): return ('Some', 'None')
+    if t.startswith('std::result::Result'): return ('Ok', 'Err')
+    if t.startswith('std::ops::ControlFlow'): return ('Continue', 'Break')
+    return None
+
+
+def _recv_family(c):
+    f = ty_family(c.self_ty or '')
+    return {'Some': 'Option', 'Ok': 'Result'}.get(f[0]) if f else None
+
+
+def _whole(o):
+    """local of an operand that is the whole local or a deref of it"""
+    if o['k'] in ('copy', 'move') and all(p == '*' for p in o['pl']['p']): return o['pl']['l']
+    return None
+
+
+class Flow:
+    def __init__(self, body):
+        self.b = body; self.bools = T._cp_tracked(body)
+        self.callmap = {c.bb: c for c in body.calls}
+        self._memo = {}
+
+    def _stmts(self, e, sts):
+        b = self.b
+        for st in sts:
+            if 'dst' not in st: continue
+            d = st['dst']; l = d['l']; rv = st['rv']; k = rv['k']
+            if k in ('ref', 'rawptr') and (rv.get('mut') or k == 'rawptr') and all(p == '*' for p in rv['pl']['p']):
+                e.pop(rv['pl']['l'], None)          # the value may be changed through the borrow
+            if d['p']:
+                e.pop(l, None); continue
+            v = None
+            if k == 'use':
+                o = rv['ops'][0]
+                if o['k'] == 'const':
+                    if o['v'] in ('true', 'false') and l in self.bools: v = (o['v'] == 'true')
+                else:
+                    s = _whole(o)
+                    if s is not None: v = e.get(s)
+            elif k == 'ref' and not rv.get('mut'):
+                if all(p == '*' for p in rv['pl']['p']): v = e.get(rv['pl']['l'])
+            elif k == 'agg':
+                m = ADT_VARIANT.search(rv['adt'])
+                if m: v = m.group(1)
+            elif k == 'discr':
+                if all(p == '*' for p in rv['pl']['p']):
+                    s = e.get(rv['pl']['l'])
+                    if isinstance(s, str): v = ('d', VIDX[s])
+            elif k == 'un' and rv.get('op') == 'Not':
+                s = _whole(rv['ops'][0])
+                if s is not None and isinstance(e.get(s), bool): v = not e[s]
+            if v is None: e.pop(l, None)
+            else: e[l] = v
+
+    def _call(self, e, c):
+        b = self.b; dl = c.dst['l']
+        if c.dst['p']:
+            e.pop(dl, None); return
+        v = None
+        a0 = _whole(c.args[0]) if c.args else None
+        s = e.get(a0) if a0 is not None else None
+        if T.TRY_BRANCH.search(c.name):
+            if isinstance(s, str): v = 'Continue' if s in OKV else 'Break'
+        elif c.item == 'from_residual' and T.FROM_RESIDUAL.search(c.name):
+            fam = ty_family(b.locals[dl]) or ('Ok', 'Err')
+            v = fam[1]
+        elif T.NOT_CALL.search(c.name):
+            if isinstance(s, bool): v = not s
+        elif isinstance(s, str) and (_recv_family(c), c.item) in KEEPS_OKNESS:
+            fam = ty_family(b.locals[dl])
+            if fam: v = fam[0] if s in OKV else fam[1]
+        if v is None: e.pop(dl, None)
+        else: e[dl] = v
+
+    def outcomes(self, starts, stop=(), env=None):
+        """kinds of exits ('ok' | 'err' | 'unknown') reachable from the blocks `starts` without entering `stop`"""
+        key = (tuple(starts), frozenset(stop), frozenset((env or {}).items()))
+        if key in self._memo: return self._memo[key]
+        b = self.b; out = set(); seen = set()
+        work = [(s, frozenset((env or {}).items())) for s in starts if s not in stop]
+        while work:
+            bi, fe = work.pop()
+            if (bi, fe) in seen: continue
+            seen.add((bi, fe))
+            if len(seen) > 60000:
+                out.add('unknown'); break
+            e = dict(fe); blk = b.blocks[bi]
+            self._stmts(e, blk['st'])
+            t = blk['term']; k = t['k']; succs = b.succ(bi)
+            if k == 'return':
+                v = e.get(0)
+                out.add('ok' if v in OKV else 'err' if v in ERRV else 'unknown')
+                continue
+            if k == 'call':
+                self._call(e, self.callmap.get(bi) or facts_call(bi, t))
+            elif k == 'switch' and t['d']['k'] != 'const' and not t['d']['pl']['p']:
+                v = e.get(t['d']['pl']['l'])
+                n = (1 if v else 0) if isinstance(v, bool) else v[1] if isinstance(v, tuple) else None
+                if n is not None:
+                    m = {val: tg for val, tg in t['ts']}
+                    succs = [m.get(n, t['else'])]
+            fe2 = frozenset(e.items())
+            for s in succs:
+                if s in stop or b.blocks[s]['cleanup']: continue
+                work.append((s, fe2))
+        self._memo[key] = out
+        return out
+
+    def may_succeed(self, starts, stop=(), env=None):
+        return bool(self.outcomes(starts, stop, env) & {'ok', 'unknown'})
+
+
+def facts_call(bi, t):
+    from ..facts import Call
+    return Call(bi, t)
+
+
+def flow(body):
+    f = getattr(body, '_c20_flow', None)
+    if f is None: f = body._c20_flow = Flow(body)
+    return f
+
+
+def propagates(ctx, rule, body, calls, what):
+    """T-ERRFLOW (path-sensitive): if the call yields Err/None, the function only has Err exits.
+    Covers `?`, adaptor chains ending in `?`, `match`/`let else` on the result, returning it directly,
+    and a `?` inside an inlined helper whose result the caller branches on again."""
+    fl = flow(body)
+    for c in calls:
+        ctx.counters['cfg_paths'] += 1
+        fam = ty_family(body.locals[c.dst['l']]) if not c.dst['p'] else None
+        if fam is None or c.target < 0:
+            ctx.bad(rule, 'T-ERRFLOW', body.name, '%s: result is not an Option/Result value' % what, body.site(c.bb)); continue
+        out = fl.outcomes([c.target], env={c.dst['l']: fam[1]})
+        ctx.check(out == {'err'}, rule, 'T-ERRFLOW', body.name, '%s: when it yields %s the function can still exit with %s' % (what, fam[1], sorted(out - {'err'}) or 'no error'),
+                  body.site(c.bb), outcomes=sorted(out))
+
+
+def guard_holds(body, call, polarity):
+    """T-GUARD (path-sensitive): every ok/unknown exit passes the test of `call`'s bool, and the side
+    contradicting `polarity` has Err exits only.  ensure!(c) ≡ if !c { bail! } ≡ if !c { return Err(..) }"""
+    fl = flow(body)
+    for sb, neg in T.bool_flow(body, call.dst['l']):
+        t, f = T.switch_sides(body, sb, neg)
+        req, oth = (t, f) if polarity else (f, t)
+        if req is None or oth is None: continue
+        if fl.may_succeed([req]) and fl.outcomes([oth]) == {'err'} and not fl.may_succeed([0], stop={sb}):
+            return sb
+    return None
+
+
+def media_fns(body, operand):
+    """media_types::v1_* functions whose result the operand is computed from (expression tree)"""
+    out = []
+    for x in T.expr_walk(T.expr(body, operand)):
+        if x[0] == 'call':
+            m = MT_FN.match(x[2])
+            if m: out.append(m.group(1))
+    return out
+
+
+def same_ty(t, want):
+    t = (t or '').strip()
+    return t == want or t.endswith('::' + want)
+
+
+def is_type_param(t):
+    """a bare generic parameter (`M`, `T`): the call stands in an inlined generic helper"""
+    return re.fullmatch(r'[A-Z]\w*', (t or '').strip()) is not None
+
+
+def mentions(ty, name):
+    return re.search(r'(?<![\w:])%s(?![\w])' % re.escape(name), ty or '') is not None
+
+
+def landing_types(body, local, param, depth=14):
+    """types of the first locals NOT mentioning the type parameter `param` that the value of `local`
+    is moved into (plain moves, tuples/Ok(..) built from it, `?`): where a generic helper's result
+    lands in its (inlined) caller the parameter is instantiated."""
+    out = []; seen = {local}; work = [(local, 0)]
+    while work:
+        l, d = work.pop()
+        if d > depth: continue
+        for kind, bi, x in body.uses.get(l, ()):
+            nl = None
+            if kind == 'stmt' and x['rv']['k'] in ('use', 'agg') and not x['dst']['p']:
+                # the error payload (`as Break.0`, `as Err.0`) does not carry the message
+                if any(isinstance(p, dict) and p.get('dc') in ERRV for o in x['rv']['ops'] if o['k'] in ('copy', 'move') and o['pl']['l'] == l for p in o['pl']['p']): continue
+                nl = x['dst']['l']
+            elif kind == 'call' and T.TRY_BRANCH.search(x.name) and not x.dst['p']: nl = x.dst['l']
+            if nl is None or nl in seen: continue
+            seen.add(nl)
+            if mentions(body.locals[nl], param): work.append((nl, d + 1))
+            else: out.append(body.locals[nl])
+    return out
+
+
+def message_type_is(body, call, msg, value_local=None):
+    """the prost call works on message type `msg`: its Self type is `msg`, or it is a type parameter of
+    an inlined generic helper that is instantiated with `msg` (decided where the value comes from /
+    lands: the declared type of the encoded parameter, the type the decoded value is moved into)"""
+    st = call.self_ty or ''
+    if same_ty(st, msg): return True
+    if not is_type_param(st): return False
+    if value_local is not None:
+        lt = landing_types(body, value_local, st)
+        return bool(lt) and all(mentions(t, msg) for t in lt)
+    root = T.access_path(body, call.args[0])[1]
+    return root is not None and 1 <= root <= body.argc and same_ty(body.locals[root], msg)
+
+
+def origin(body, pl, depth=40):
+    """where the value of a place comes from: (local, projections) after following, backwards, plain
+    moves/copies/borrows, transparent calls (`as_slice`, `deref`, `as_ref`, `?`), and the construction
+    of tuples / Ok / Some / Continue values the projection selects a component of.  A local built on
+    several paths is resolved by the variant the projection names: `(x as Continue).0` only looks at the
+    definitions `x = Continue(..)` (the `?` of a spliced closure, a helper's `Ok((a, b))`)."""
+    l = pl['l']; proj = [p for p in pl['p'] if p != '*']
+    for _ in range(depth):
+        if 1 <= l <= body.argc: break
+        defs = [d for d in body.defs_of(l) if not (d[0] == 'stmt' and d[2]['dst']['p'])]
+        want = proj[0]['dc'] if proj and isinstance(proj[0], dict) and 'dc' in proj[0] else None
+        if want is not None:
+            keep = []
+            for d in defs:
+                if d[0] == 'stmt' and d[2]['rv']['k'] == 'agg':
+                    m = ADT_VARIANT.search(d[2]['rv']['adt'])
+                    if m and m.group(1) != want: continue            # builds another variant
+                if d[0] == 'call' and (d[2].get('ri') or {}).get('item') == 'from_residual' and want in OKV: continue     # builds the error
+                keep.append(d)
+            defs = keep
+        if len(defs) > 1 and all(d[0] == 'stmt' and d[2]['rv']['k'] == 'use' and d[2]['rv'] == defs[0][2]['rv'] for d in defs): defs = defs[:1]
+        if len(defs) != 1: break
+        kind, bi, d = defs[0]
+        if kind == 'call':
+            nm = d['r'] or d['f']
+            a0 = d['args'][0] if d['args'] else None
+            if a0 is None or a0['k'] not in ('copy', 'move'): break
+            if T.TRY_BRANCH.search(nm) and want == 'Continue':
+                # (branch(x) as Continue).0  is  (x as Ok).0 / (x as Some).0
+                fam = ty_family(body.locals[a0['pl']['l']]) if not a0['pl']['p'] else None
+                if fam is None: break
+                src = [p for p in a0['pl']['p'] if p != '*']
+                l = a0['pl']['l']; proj = src + [{'dc': fam[0]}] + proj[1:]; continue
+            if T.TRANSPARENT_NOCLONE.search(T.strip_generics_tail(nm)) and want is None:
+                l = a0['pl']['l']; proj = [p for p in a0['pl']['p'] if p != '*'] + proj; continue
+            break
+        rv = d['rv']; k = rv['k']
+        if k == 'use' and rv['ops'][0]['k'] in ('copy', 'move'):
+            sp = rv['ops'][0]['pl']; l = sp['l']; proj = [p for p in sp['p'] if p != '*'] + proj; continue
+        if k == 'ref':
+            sp = rv['pl']; l = sp['l']; proj = [p for p in sp['p'] if p != '*'] + proj; continue
+        if k == 'agg':
+            rest = proj[1:] if want is not None else proj
+            if not rest or not (isinstance(rest[0], dict) and 'f' in rest[0]): break
+            f = rest[0]['f']; names = rv.get('fields') or []
+            i = names.index(f) if f in names else (int(f) if f.isdigit() else None)
+            if i is None or i >= len(rv['ops']) or rv['ops'][i]['k'] not in ('copy', 'move'): break
+            sp = rv['ops'][i]['pl']; l = sp['l']; proj = [p for p in sp['p'] if p != '*'] + rest[1:]; continue
+        break
+    return l, proj
+
+
+def ok_payloads(body):
+    """operands wrapped by `Ok(..)` and assigned to the return place"""
+    return [st['rv']['ops'][0] for bi, k, st in body.ret_assignments() if k == 'ok' and st.get('rv', {}).get('ops')]
+
+
+def over_all_layers(ctx, body, lo):
+    """the loop iterates over the result of `OciArtifact::get_layers` (all (descriptor, blob) pairs in manifest order)"""
+    return any(x.item == 'get_layers' and 'OciArtifact' in x.name for x in ctx.S.slice_operand(body, lo[0].args[0]).call_objs)
+
+
+def eq_tests(body, needle='MediaType'):
+    return [c for c in body.calls if c.item in ('eq', 'ne') and 'PartialEq' in (c.trait or '') and needle in c.name]
+
+
+# ------------------------------------------------------------------------------- per kind
 def kinds_rules(ctx):
     R = 'C20.kinds'
     for kind, (addf, getf, mt, msg, ann) in KINDS.items():
         b = ctx.method(R + '/%s/add/anchor' % kind, BUILDER, addf)
         if b is not None:
-            enc = [c for c in b.calls if c.item in ('encode_to_vec', 'encode') and 'prost::Message' in (c.trait or c.name)]
-            al = [c for c in b.calls if c.item == 'add_layer']
-            ok = len(enc) == 1 and re.search(r'<%s as prost::Message>' % re.escape(msg), enc[0].name) and T.access_path(b, enc[0].args[0])[1] == 2
-            ctx.check(bool(ok), R + '/%s/add/encodes-message' % kind, 'T-SIBLING', b.name, 'the stored blob is not the encoding of the given %s' % msg, b.site())
-            okl = False
+            fl = flow(b)
+            enc = [c for c in b.calls if c.item in ENCODERS and (c.trait or '').endswith('prost::Message')]
+            # the encoded value is the message parameter itself and is encoded as its own type
+            good = [c for c in enc if T.access_path(b, c.args[0])[1] == 2 and same_ty(b.locals[2], msg) and message_type_is(b, c, msg)]
+            ctx.check(bool(good), R + '/%s/add/encodes-message' % kind, 'T-SIBLING', b.name, 'the stored blob is not the encoding of the given %s' % msg, b.site())
+            al = [c for c in b.calls if c.item == 'add_layer' and 'OciArtifactBuilder' in c.name]
+            okl = bool(al)
             for c in al:
-                mts = [x for x in T.expr_walk(T.expr(b, c.args[1])) if x[0] == 'call' and x[1].startswith('v1_')]
                 blob = ctx.S.slice_operand(b, c.args[2]); an = ctx.S.slice_operand(b, c.args[3])
-                okl = len(mts) == 1 and mts[0][1] == mt and bool(enc) and enc[0] in blob.call_objs and 3 in an.params and all(b.dominates(c.bb, e) for e in b.strict_ok_exits())
-                errflow_calls(ctx, R + '/%s/add/error' % kind, b, [c], 'add_layer')
-            ctx.check(len(al) == 1 and okl, R + '/%s/add/layer' % kind, 'T-SIBLING', b.name, 'add_layer is not called with (media_types::%s(), encoded blob, given annotations) on every success path' % mt, b.site())
+                args_ok = media_fns(b, c.args[1]) == [mt] and any(e in blob.call_objs for e in good) and not any(e in blob.call_objs for e in enc if e not in good) and 3 in an.params
+                # exactly one layer per successful call: no other add_layer after this one
+                once = not (b.reach([c.target]) & {x.bb for x in al}) if c.target >= 0 else False
+                okl = okl and args_ok and once
+            # ... and at least one on every path that does not fail
+            okl = okl and not fl.may_succeed([0], stop={c.bb for c in al})
+            ctx.check(okl, R + '/%s/add/layer' % kind, 'T-SIBLING', b.name, 'add_layer is not called exactly once with (media_types::%s(), encoded blob, given annotations) on every success path' % mt, b.site())
+            propagates(ctx, R + '/%s/add/error' % kind, b, al, 'add_layer')
         g = ctx.method(R + '/%s/get/anchor' % kind, ART, getf)
         if g is not None:
-            gl = [c for c in g.calls if c.item == 'get_layer' and c.path.endswith('get_layer')]
-            ctx.check(len(gl) == 1 and T.access_path(g, gl[0].args[1])[1] == 2, R + '/%s/get/by-digest' % kind, 'T-CARRY', g.name, 'layer is not looked up by the given digest', g.site())
-            errflow_calls(ctx, R + '/%s/get/unknown-digest-error' % kind, g, gl, 'get_layer')
-            # media type guard
-            okg = False
-            for c in g.calls:
-                if c.item in ('eq', 'ne') and 'PartialEq' in (c.trait or '') and 'MediaType' in c.name:
-                    exs = [T.expr(g, a) for a in c.args]
-                    mts = [x[1] for e in exs for x in T.expr_walk(e) if x[0] == 'call' and x[1].startswith('v1_')]
-                    descs = [x for e in exs for x in T.expr_walk(e) if x[0] == 'call' and x[1] == 'media_type']
-                    if mts == [mt] and descs:
-                        for gd in T.guards_from_call(g, c):
-                            if gd.requires(c.item == 'eq') and gd.dominates_ok_exits(): okg = True
-            ctx.check(okg, R + '/%s/get/media-type-guard' % kind, 'T-GUARD', g.name, 'a layer of another media type is not rejected (expected desc.media_type() == media_types::%s())' % mt, g.site())
-            dec = [c for c in g.calls if c.item == 'decode' and 'prost::Message' in (c.trait or c.name)]
-            okd = len(dec) == 1 and re.search(r'<%s as prost::Message>' % re.escape(msg), dec[0].name) and bool(gl) and gl[0] in ctx.S.slice_operand(g, dec[0].args[0]).call_objs
-            ctx.check(bool(okd), R + '/%s/get/decodes-message' % kind, 'T-SIBLING', g.name, 'the blob of the layer is not decoded as %s' % msg, g.site())
-            errflow_calls(ctx, R + '/%s/get/decode-error' % kind, g, dec, 'decode')
+            gl = [c for c in g.calls if c.item == 'get_layer' and c.path.endswith('Artifact::<Base>::get_layer')]
+            dec = [c for c in g.calls if c.item in DECODERS and (c.trait or '').endswith('prost::Message')]
             fd = [c for c in g.calls if c.item == 'from_descriptor' and ann in c.path]
-            okf = len(fd) == 1 and bool(gl) and gl[0] in ctx.S.slice_operand(g, fd[0].args[0]).call_objs
+            # the layer lookups whose result is decoded / whose descriptor gives the annotations
+            used = [l for l in gl if any(l in ctx.S.slice_operand(g, c.args[0]).call_objs for c in dec + fd)]
+            ctx.check(bool(used) and all(T.access_path(g, l.args[1])[1] == 2 for l in used), R + '/%s/get/by-digest' % kind, 'T-CARRY', g.name, 'layer is not looked up by the given digest', g.site())
+            propagates(ctx, R + '/%s/get/unknown-digest-error' % kind, g, gl, 'get_layer')
+            # media type guard: <descriptor of the looked-up layer>.media_type() == media_types::v1_K()
+            okg = False
+            for c in eq_tests(g):
+                sides = [(T.expr(g, a), a) for a in c.args]
+                mts = [m for e, a in sides for m in media_fns(g, a)]
+                desc = any(T.expr_has_call(e, 'media_type') and any(l in ctx.S.slice_operand(g, a).call_objs for l in used) for e, a in sides)
+                if mts == [mt] and desc and guard_holds(g, c, c.item == 'eq') is not None: okg = True
+            ctx.check(okg, R + '/%s/get/media-type-guard' % kind, 'T-GUARD', g.name, 'a layer of another media type is not rejected (expected desc.media_type() == media_types::%s())' % mt, g.site())
+            # the returned message is the layer's blob decoded as T_K
+            pay = ok_payloads(g)
+            okd = False
+            for d in dec:
+                from_layer = any(l in ctx.S.slice_operand(g, d.args[0]).call_objs for l in used)
+                returned = bool(pay) and all(d in ctx.S.slice_operand(g, p).call_objs for p in pay)
+                if from_layer and returned and message_type_is(g, d, msg, value_local=d.dst['l']) and g.locals[0].startswith('std::result::Result<(%s, ' % msg): okd = True
+            ctx.check(okd, R + '/%s/get/decodes-message' % kind, 'T-SIBLING', g.name, 'the blob of the layer is not decoded as %s' % msg, g.site())
+            propagates(ctx, R + '/%s/get/decode-error' % kind, g, dec, 'decode')
+            okf = any(any(l in ctx.S.slice_operand(g, c.args[0]).call_objs for l in used) and bool(pay) and all(c in ctx.S.slice_operand(g, p).call_objs for p in pay) for c in fd)
             ctx.check(okf, R + '/%s/get/annotations' % kind, 'T-SIBLING', g.name, 'annotations are not read from the layer\'s descriptor as %s' % ann, g.site())
-    # list readers filter on the same media type
+    # list readers: every layer of the kind's media type, decoded, with its own descriptor, in order
     for fn, mt, msg in (('get_instances', 'v1_instance', 'v1::Instance'), ('get_solutions', 'v1_solution', 'v1::State')):
         g = ctx.method(R + '/%s/anchor' % fn, ART, fn)
         if g is None: continue
-        mts = [c.item for c in media_type_calls(g)]
-        dec = [c for c in g.calls if c.item == 'decode' and re.search(r'<%s as prost::Message>' % re.escape(msg), c.name)]
+        headers = set(g.loops())
+        dec = [c for c in g.calls if c.item in DECODERS and (c.trait or '').endswith('prost::Message') and message_type_is(g, c, msg, value_local=c.dst['l'])]
+        # the loop over all layers of the archive in which the message is decoded
+        site = None
+        for d in dec:
+            for lo in T.for_loops(g):
+                if d.bb in lo[4] and over_all_layers(ctx, g, lo):
+                    if site is None or len(lo[4]) < len(site[1][4]): site = (d, lo)
         okg = False
-        for c in g.calls:
-            if c.item in ('eq', 'ne') and 'MediaType' in c.name:
+        if site:
+            d, lo = site; nxt, header, some_bb = lo[0], lo[1], lo[2]
+            for c in eq_tests(g):
+                if c.bb not in lo[4]: continue
+                sides = [(T.expr(g, a), a) for a in c.args]
+                mts = [m for e, a in sides for m in media_fns(g, a)]
+                desc = any(T.expr_has_call(e, 'media_type') and nxt in ctx.S.slice_operand(g, a).call_objs for e, a in sides)
+                if mts != [mt] or not desc: continue
                 for gd in T.guards_from_call(g, c):
-                    # layers of other types are skipped, matching ones decoded
+                    # layers of other types are skipped, matching ones decoded; no way to the decoder around the test
                     yes, no = (gd.true_bb, gd.false_bb) if c.item == 'eq' else (gd.false_bb, gd.true_bb)
-                    yr = g.reach([yes], stop=set(g.loops())); nr = g.reach([no], stop=set(g.loops()))
-                    if dec and dec[0].bb in yr and dec[0].bb not in nr: okg = True
-        ctx.check(mts == [mt] and len(dec) == 1 and okg, R + '/%s/filter' % fn, 'T-SIBLING', g.name, 'does not decode exactly the layers of media type %s as %s' % (mt, msg), g.site())
-        errflow_calls(ctx, R + '/%s/decode-error' % fn, g, dec, 'decode')
-        pushes = [c for c in g.calls if c.item == 'push']
-        loops = T.for_loops(g)
-        if loops and pushes and dec:
-            yes_via = {pushes[0].bb}
-            ctx.check(T.must_pass(g, dec[0].bb, {loops[0][1]}, yes_via), R + '/%s/every-match-kept' % fn, 'T-LOOPMUST', g.name, 'a decoded layer can be dropped', g.site())
+                    yr = g.reach([yes], stop=headers); nr = g.reach([no], stop=headers)
+                    around = g.reach([some_bb], stop=headers | {gd.switch_bb})
+                    if d.bb in yr and d.bb not in nr and d.bb not in around: okg = True
+        ctx.check(okg, R + '/%s/filter' % fn, 'T-SIBLING', g.name, 'does not decode exactly the layers of media type %s as %s' % (mt, msg), g.site())
+        propagates(ctx, R + '/%s/decode-error' % fn, g, dec, 'decode')
+        if not site:
+            # fail closed: the per-layer conditions cannot be placed
+            ctx.bad(R + '/%s/every-match-kept' % fn, 'T-LOOPMUST', g.name, 'no loop over OciArtifact::get_layers() in which a layer is decoded as %s' % msg, g.site())
+            ctx.bad(R + '/%s/same-layer' % fn, 'T-CARRY', g.name, 'no loop over OciArtifact::get_layers() in which a layer is decoded as %s' % msg, g.site())
+        else:
+            d, lo = site; item = lo[0].dst['l']
+            pushes = [c for c in g.calls if c.item in ('push', 'push_back') and c.bb in lo[4] and d in ctx.S.slice_operand(g, c.args[1]).call_objs]
+            ctx.check(bool(pushes) and T.must_pass(g, d.bb, {lo[1]}, {c.bb for c in pushes}), R + '/%s/every-match-kept' % fn, 'T-LOOPMUST', g.name, 'a decoded layer can be dropped', g.site())
+            # descriptor and blob of one entry are the two halves of the same layer (not looked up again by digest:
+            # two layers may have the same digest and different annotations)
+            ok_same = bool(pushes) and d.args[0]['k'] in ('copy', 'move') and origin(g, d.args[0]['pl'])[0] == item
+            for c in pushes:
+                a = c.args[1]
+                first = {'l': a['pl']['l'], 'p': list(a['pl']['p']) + [{'f': '0', 'of': 'tuple'}]} if a['k'] in ('copy', 'move') else None      # the Descriptor of the pushed (Descriptor, message)
+                ok_same = ok_same and first is not None and origin(g, first)[0] == item
+            ctx.check(ok_same, R + '/%s/same-layer' % fn, 'T-CARRY', g.name, 'the descriptor and the decoded blob of an entry are not taken from the same layer of the iteration', g.site())
+
+
+# ------------------------------------------------------------------------------- media types, manifest, digest
+def string_literals(body):
+    out = []
+    for c in body.calls:
+        out += [a['v'] for a in c.args if a['k'] == 'const' and a['v'].startswith('"')]
+    for bi, st in body.stmts():
+        out += [o['v'] for o in st['rv'].get('ops', []) if o['k'] == 'const' and o['v'].startswith('"')]
+    return [v.strip('"') for v in out]
 
 
 def types_rules(ctx, repo):
     R = 'C20.types'
     vals = {}
     for b in ctx.F.bodies.values():
-        m = re.match(r'^artifact::media_types::(v1_\w+)$', b.name)
+        m = MT_FN.match(b.name)
         if m and b.kind == 'fn':
             ctx.fn(b)
-            lits = [c.args[0]['v'].strip('"') for c in b.calls if c.item == 'to_string' and c.args and c.args[0]['k'] == 'const'] + \
-                   [st['rv']['ops'][0]['v'].strip('"') for bi, st in b.stmts() if st['rv']['k'] == 'use' and st['rv']['ops'][0]['k'] == 'const' and st['rv']['ops'][0]['v'].startswith('"')]
-            vals[m.group(1)] = lits[0] if lits else None
+            # "lit".to_string() ≡ String::from("lit") ≡ "lit".to_owned() ≡ "lit".into(): the one string literal of the function
+            lits = sorted(set(string_literals(b)))
+            vals[m.group(1)] = lits[0] if len(lits) == 1 else None
     want = {'v1_artifact': 'application/org.ommx.v1.artifact', 'v1_config': 'application/org.ommx.v1.config+json', 'v1_instance': 'application/org.ommx.v1.instance',
             'v1_parametric_instance': 'application/org.ommx.v1.parametric-instance', 'v1_solution': 'application/org.ommx.v1.solution', 'v1_sample_set': 'application/org.ommx.v1.sample-set'}
     ctx.check(set(vals) == set(want), R + '/function-set', 'T-CONST', 'artifact::media_types', 'media type functions: %s' % sorted(vals))
@@ -109,37 +477,61 @@ def types_rules(ctx, repo):
         ctx.fn(b)
         for c in b.calls:
             if c.item == 'new' and 'OciArtifactBuilder' in c.name:
-                mts = [x[1] for x in T.expr_walk(T.expr(b, c.args[1])) if x[0] == 'call' and x[1].startswith('v1_')]
+                mts = media_fns(b, c.args[1])
                 ctx.check(mts == ['v1_artifact'], R + '/constructor/' + b.hdr.get('item', '?'), 'T-CONST', b.name, 'artifact type passed to OciArtifactBuilder::new is %s' % mts, b.site(c.bb))
     g = ctx.method(R + '/get_manifest/anchor', ART, 'get_manifest')
     if g is not None:
-        at = [c for c in g.calls if c.item in ('as_ref',) and 'MediaType' in c.name]
-        errflow_calls(ctx, R + '/get_manifest/missing-type-is-error', g, at, 'missing artifact type')
-        okg = False
-        for c in g.calls:
-            if c.item in ('eq', 'ne') and 'MediaType' in c.name:
-                mts = [x[1] for a in c.args for x in T.expr_walk(T.expr(g, a)) if x[0] == 'call' and x[1].startswith('v1_')]
-                for gd in T.guards_from_call(g, c):
-                    if mts == ['v1_artifact'] and gd.requires(c.item == 'eq') and gd.dominates_ok_exits(): okg = True
+        at = [c for c in g.calls if c.item == 'artifact_type' and 'ImageManifest' in c.name]
+        okg = False; whole = False
+        for c in eq_tests(g):
+            mts = [m for a in c.args for m in media_fns(g, a)]
+            from_manifest = any(x in ctx.S.slice_operand(g, a).call_objs for a in c.args for x in at)
+            if mts == ['v1_artifact'] and from_manifest and guard_holds(g, c, c.item == 'eq') is not None:
+                okg = True
+                # `manifest.artifact_type() == &Some(v1_artifact())`: the comparison itself rejects a missing type
+                if any(T.strip_wrappers(T.expr(g, a))[0] == 'agg' and T.strip_wrappers(T.expr(g, a))[1].endswith('Option::Some') for a in c.args): whole = True
+        # a missing artifactType is an error: as_ref().context(..)? ≡ match { None => bail!, .. } ≡ let Some(ty) = .. else { bail! } ≡ ok_or_else(..)?
+        if whole and okg:
+            ctx.ok(R + '/get_manifest/missing-type-is-error', 'T-ERRFLOW', g.site(), how='compared as a whole Option with Some(v1_artifact())')
+        elif at:
+            propagates(ctx, R + '/get_manifest/missing-type-is-error', g, at, 'missing artifact type')
+        else:
+            ctx.bad(R + '/get_manifest/missing-type-is-error', 'T-ERRFLOW', g.name, 'the artifact type of the manifest is not read', g.site())
         ctx.check(okg, R + '/get_manifest/type-guard', 'T-GUARD', g.name, 'a manifest whose artifact type is not v1_artifact() is accepted', g.site())
     gl = ctx.method('C20.digest/get_layer/anchor', ART, 'get_layer')
     if gl is not None:
-        loops = T.for_loops(gl)
-        ok = False
-        for lo in loops:
-            none_bb = lo[3]
-            r = gl.reach([none_bb])
-            ok = bool(r & gl.err_exits()) and not (r & gl.strict_ok_exits())
+        fl = flow(gl)
+        # the loop over the layers of the archive (a `for`, or find / find_map / position in normal form)
+        loops = [lo for lo in T.for_loops(gl) if over_all_layers(ctx, gl, lo)]
+        # when the layers are exhausted without a hit, the function fails: trailing bail! ≡ find(..).with_context(..) ≡ .ok_or_else(..)? ≡ match { None => bail! }
+        ok = bool(loops) and all(fl.outcomes([lo[3]]) == {'err'} for lo in loops)
         ctx.check(ok, 'C20.digest/unknown-is-error', 'T-ERRFLOW', gl.name, 'an unknown digest does not end in an error', gl.site())
         cmp_ok = False
-        for c in gl.calls:
-            if c.item in ('eq', 'ne') and 'PartialEq' in (c.trait or ''):
-                exs = [T.expr(gl, a) for a in c.args]
-                if any(T.expr_has_call(e, 'digest') for e in exs) and any(any(x[0] == 'place' and x[1] == 2 for x in T.expr_walk(e)) for e in exs):
-                    for gd in T.guards_from_call(gl, c):
-                        yes = gd.true_bb if c.item == 'eq' else gd.false_bb
-                        if gl.reach([yes], stop=set(gl.loops())) & gl.strict_ok_exits(): cmp_ok = True
+        headers = set(gl.loops())
+        for c in eq_tests(gl, needle=''):
+            lo = [x for x in loops if c.bb in x[4]]
+            if not lo: continue
+            nxt = lo[0][0]
+            sides = [(T.expr(gl, a), a) for a in c.args]
+            # <digest of the loop's item> == <the digest argument>
+            item_digest = any(T.expr_has_call(e, 'digest') and nxt in ctx.S.slice_operand(gl, a).call_objs for e, a in sides)
+            given = any(any(x[0] == 'place' and x[1] == 2 for x in T.expr_walk(e)) for e, a in sides)
+            if not (item_digest and given): continue
+            for sb, neg in T.bool_flow(gl, c.dst['l']):
+                t, f = T.switch_sides(gl, sb, neg)
+                yes, no = (t, f) if c.item == 'eq' else (f, t)
+                # a hit is returned, a layer with another digest never is
+                if fl.may_succeed([yes], stop=headers) and not fl.may_succeed([no], stop=headers): cmp_ok = True
         ctx.check(cmp_ok, 'C20.digest/compares-digest', 'T-GUARD', gl.name, 'layers are not selected by comparing their digest with the argument', gl.site())
+
+
+# ------------------------------------------------------------------------------- annotations
+MAP_WRITES = ('insert',            # map.insert(k, v); extend([(k, v)]) and collect are `insert` in normal form; VacantEntry::insert(v)
+              'or_insert',         # map.entry(k).or_insert(v): the entry (receiver) carries the key
+              'or_insert_with',    # map.entry(k).or_insert_with(|| v)
+              'insert_entry',      # map.entry(k).insert_entry(v)
+              'extend')            # map.extend(other_iterable) (not desugared without a closure chain)
+MAP_TYPES = re.compile(r'HashMap|hash_map::(Entry|VacantEntry|OccupiedEntry)|BTreeMap|btree_map::(Entry|VacantEntry|OccupiedEntry)')
 
 
 def annotation_rules(ctx, repo):
@@ -153,12 +545,16 @@ def annotation_rules(ctx, repo):
         meths = {b.hdr['item']: b for b in ctx.F.bodies.values() if b.kind == 'fn' and b.hdr.get('self') == full and b.hdr.get('trait') is None}
         def key_of(b):
             ks = []
+            def lit(o):
+                if o['k'] != 'const': return
+                v = o['v']
+                named = ctx.F.consts.get(v) or ctx.F.consts.get(v[6:] if v.startswith('const ') else v)       # `const KEY: &str = ".."`
+                if named: v = named[1]
+                if v.startswith('"org.ommx.'): ks.append(v.strip('"'))
             for c in b.calls:
-                for a in c.args:
-                    if a['k'] == 'const' and a['v'].startswith('"org.ommx.'): ks.append(a['v'].strip('"'))
+                for a in c.args: lit(a)
             for bi, st in b.stmts():
-                for o in st['rv'].get('ops', []):
-                    if o['k'] == 'const' and o['v'].startswith('"org.ommx.'): ks.append(o['v'].strip('"'))
+                for o in st['rv'].get('ops', []): lit(o)
             return sorted(set(ks))
         for name, sb in sorted(meths.items()):
             if not name.startswith('set_') or name in ('set_created_now', 'set_other', 'set_user_annotation', 'set_user_annotations'): continue
@@ -169,22 +565,24 @@ def annotation_rules(ctx, repo):
             ctx.fn(sb); ctx.fn(gb)
             sk = key_of(sb); gk = key_of(gb)
             pairs += 1
-            ok = len(sk) == 1 and sk == gk and sk[0].startswith(prefix) and sk[0] == prefix + gname.replace('_', '_')
+            ok = len(sk) == 1 and sk == gk and sk[0] == prefix + gname
             ctx.check(ok, R + '/%s/%s/same-key' % (ty, gname), 'T-CONST', sb.name, 'setter key %s, getter key %s, expected one key %s%s in both' % (sk, gk, prefix, gname), sb.site())
             if ty in ('InstanceAnnotations', 'SolutionAnnotations') and sk and doc:
                 ctx.check(sk[0] in doc, R + '/%s/%s/documented' % (ty, gname), 'T-CONST', 'ARTIFACT.md', 'annotation key %s is not documented in ARTIFACT.md' % sk[0])
-            # the setter inserts the given value under that key; the getter reads through self.get / the map
-            ins = [c for c in sb.calls if c.item == 'insert' and 'HashMap' in c.name]
-            okv = len(ins) == 1 and 2 in ctx.S.slice_operand(sb, ins[0].args[2]).params
+            # the setter writes (key, given value) into the map; the getter reads through self.get / the map
+            okv = False
+            for c in sb.calls:
+                if c.item in MAP_WRITES and MAP_TYPES.search(c.name):
+                    s = [ctx.S.slice_operand(sb, a) for a in c.args]
+                    if any(2 in x.params for x in s) and any(x.has_const(r'^"org\.ommx\.') or any(k in ctx.F.consts for k in x.consts) for x in s): okv = True
             ctx.check(okv, R + '/%s/%s/stores-value' % (ty, gname), 'T-CARRY', sb.name, 'setter does not insert the given value', sb.site())
             if gname == 'authors':
-                js = [T.strip_wrappers(T.expr(sb, c.args[1]))[1] for c in sb.calls if c.item == 'join' and len(c.args) > 1 and T.strip_wrappers(T.expr(sb, c.args[1]))[0] == 'const']
-                sp = []
-                for c in gb.calls:
-                    if c.item == 'split':
-                        for a in c.args:
-                            if a['k'] == 'const': sp.append(a['v'])
-                okj = len(js) == 1 and len(sp) == 1 and js[0].strip('"') == sp[0].strip("'").strip('"')
+                def const_of(body, a):
+                    e = T.strip_wrappers(T.expr(body, a))
+                    return e[1].strip('"').strip("'") if e[0] == 'const' else None
+                js = sorted({const_of(sb, c.args[1]) for c in sb.calls if c.item == 'join' and len(c.args) > 1} - {None})
+                sp = sorted({const_of(gb, c.args[1]) for c in gb.calls if c.item == 'split' and len(c.args) > 1} - {None})
+                okj = len(js) == 1 and js == sp
                 ctx.check(okj, R + '/%s/authors/separator' % ty, 'T-CONST', sb.name, 'authors are joined with %s but split with %s' % (js, sp), sb.site())
         # from_descriptor reads the descriptor's annotations
         fd = meths.get('from_descriptor')
@@ -192,10 +590,10 @@ def annotation_rules(ctx, repo):
             s = ctx.S.backslice(fd, [0])
             ctx.check(s.has_call(r'Descriptor::annotations') and 1 in s.params, R + '/%s/from_descriptor' % ty, 'T-CARRY', fd.name, 'annotations are not taken from the descriptor', fd.site())
     ctx.extra_pairs = pairs
-    ctx.floor('C20.annotations', 40)
 
 
 def check(ctx):
     repo = getattr(ctx, 'repo', '/repo')
     kinds_rules(ctx); types_rules(ctx, repo); annotation_rules(ctx, repo)
-    ctx.floor('C20.kinds', 30); ctx.floor('C20.types', 15); ctx.floor('C20.digest', 2)
+    # floors = rule instances decided on the pinned tree
+    ctx.floor('C20.kinds', 44); ctx.floor('C20.types', 18); ctx.floor('C20.digest', 2); ctx.floor('C20.annotations', 66)
